@@ -83,6 +83,18 @@ pub proof fn lemma_kept_trans(a: AnnotationStore, b: AnnotationStore, c: Annotat
         if !b.key_annotation_metamap.cell(x, y).contains(h) { assert(!live_a(b.annotations@, h)); if h.idx() < b.annotations@.len() { assert(c.annotations@[h.idx() as int] is None || b.annotations@[h.idx() as int] is Some); } }
     }
 }
+/// the key -> annotations index: an entry leaves a cell only when its annotation is removed
+pub open spec fn key_kept(o: AnnotationStore, n: AnnotationStore) -> bool {
+    forall|x: int, y: int, h: AnnotationHandle| o.key_annotation_metamap.cell(x, y).contains(h) ==> #[trigger] n.key_annotation_metamap.cell(x, y).contains(h) || !live_a(n.annotations@, h)
+}
+pub proof fn lemma_key_kept_trans(a: AnnotationStore, b: AnnotationStore, c: AnnotationStore)
+    requires key_kept(a, b), key_kept(b, c), mono(b.annotations@, c.annotations@),
+    ensures key_kept(a, c),
+{
+    assert forall|x: int, y: int, h: AnnotationHandle| a.key_annotation_metamap.cell(x, y).contains(h) implies #[trigger] c.key_annotation_metamap.cell(x, y).contains(h) || !live_a(c.annotations@, h) by {
+        if !b.key_annotation_metamap.cell(x, y).contains(h) { assert(!live_a(b.annotations@, h)); if h.idx() < b.annotations@.len() { assert(c.annotations@[h.idx() as int] is None || b.annotations@[h.idx() as int] is Some); } }
+    }
+}
 pub proof fn lemma_refl(a: AnnotationStore)
     ensures kept_or_dead(a, a), mono(a.annotations@, a.annotations@),
 {
@@ -241,6 +253,7 @@ KEY_L1_END = '''proof {
 
 KEY_L2_END = '''proof {
                         let i = vx_it.index@ as int;
+                        lemma_key_kept_trans(*old(self), vx_pre_store, *self);
                         lemma_mono_trans(old(self).annotations@, vx_pre_store.annotations@, self.annotations@);
                         lemma_shrinks_is_mono(vx_pre_store.annotations@, self.annotations@);
                         lemma_mono_trans(vx_mid.annotations@, vx_pre_store.annotations@, self.annotations@);
@@ -346,7 +359,7 @@ def build():
                      ('R-forname', r'for a_handle in annotations\.clone\(\) \{', 'for a_handle in vx_it: vx_list2 { let ghost vx_pre_store = *self;')],
            prologue='let ghost mut vx_l1: Seq<AnnotationDataHandle> = Seq::empty(); let ghost mut vx_l2: Seq<AnnotationHandle> = Seq::empty(); proof { lemma_refl(*self); }',
            before=[(r're:if let Some\(annotations\) = self\.key_annotation_metamap', 'let ghost vx_mid = *self;'),
-                   (r're:self\.key_annotation_metamap\s*\.remove_second\(set_handle, key_handle\);', KEY_FINAL, None, 'cascade')],
+                   (r're:self\.key_annotation_metamap\s*\.remove_\w+\(', KEY_FINAL, None, 'cascade')],
            loops={r'vx_it: vx_data': dict(invariant=[
                       ('args', 'set_handle == set && key_handle == key'),
                       ('mono', 'mono(old(self).annotations@, self.annotations@)'),
@@ -357,9 +370,12 @@ def build():
                       ('mono', 'mono(old(self).annotations@, self.annotations@)'),
                       ('since_mid', 'mono(vx_mid.annotations@, self.annotations@)'),
                       ('gone_so_far', 'forall|j: int| 0 <= j < vx_it.index@ ==> !live_a(self.annotations@, #[trigger] vx_list2@[j])'),
+                      ('key_kept', 'key_kept(*old(self), *self)'),
                   ], at_end=KEY_L2_END, at_end_label='cascade')},
            ensures=[('nothing_created', f'mono({O}.annotations@, {N}.annotations@)'),
                     ('key_annotations_gone', f'r is Ok ==> forall|k: int| 0 <= k < {KCELL}.len() ==> !live_a({N}.annotations@, #[trigger] {KCELL}[k])'),
-                    ('key_row_cleared', f'r is Ok ==> {N}.key_annotation_metamap.cell(set.idx() as int, key.idx() as int).len() == 0')]),
+                    ('key_row_cleared', f'r is Ok ==> {N}.key_annotation_metamap.cell(set.idx() as int, key.idx() as int).len() == 0'),
+                    # frame: no other cell of the key index loses a live annotation (the rows of the other keys of the set stay)
+                    ('other_key_rows_kept', f'key_kept(*{O}, *{N})')]),
     ])
     return u
